@@ -470,6 +470,8 @@ def gen_bearing_deg(rng):
 
 def check(run):
     run.prove(MODULE, THEOREMS)
+    run.source_tie(['SrcCalc'], 'GeoVerif.Props.C07Src',
+                   ['GV.C07Src.' + t for t in ('haversine_eq', 'bearing_eq', 'destination_eq', 'destinationDeg_eq')])
     rng = run.rng
     kinds = {}
 
